@@ -132,6 +132,14 @@ package shard
 //@   ensures !skip && err == nil ==> ncalls(SetPoint) == 1 && callarg(SetPoint, 1, 1).NodeId == callres(GetPointByUUID, 1, 0).NodeId && callarg(SetPoint, 1, 1).Point.Id == point.Id
 //@   ensures !skip && err == nil ==> len(updatedIds) == old(len(updatedIds)) + 1 && updatedIds[len(updatedIds)-1] == point.Id
 //@   ensures !skip && err == nil ==> ipc.NodeId == callres(GetPointByUUID, 1, 0).NodeId && ipc.PreviousData == callres(GetPointByUUID, 1, 0).Point.Data
+//@   ensures !skip && err == nil ==> callarg(SetPoint, 1, 1).Point.Data == callres(Marshal, 1, 0) && ipc.NewData == callres(Marshal, 1, 0) && len(callres(Marshal, 1, 0)) <= s.collection.UserPlan.MaxPointSize
+//@   before Marshal requires arg0 == existingData && forallv(k string, contains(incomingData, k) ==> (incomingData[k] == "_delete" ==> !contains(existingData, k)) && (incomingData[k] != "_delete" ==> contains(existingData, k) && existingData[k] == incomingData[k]))
+//@   loop 1 invariant forallv(k string, visited(k) ==> (incomingData[k] == "_delete" ==> !contains(existingData, k)) && (incomingData[k] != "_delete" ==> contains(existingData, k) && existingData[k] == incomingData[k]))
+
+// (update step, merge: the document written back is the serialisation of the stored document
+// with every incoming field set, and every incoming field whose value is "_delete" removed;
+// fields the request does not mention are not part of this clause - the loop only touches
+// the keys it ranges over)
 
 // delete step: unknown ids are skipped; an existing id is reported, its node id is released and
 // all its keys are removed
